@@ -385,6 +385,23 @@ fn vp_native_response_body_end_to_end_body() {
                 cases += 1; crate::verif_native_watchdog::progress();
                 assert!(out == payload, "read schedule {:?}: {} of {} bytes delivered (first difference at {:?}), {} body", sched, out.len(), n, out.iter().zip(payload.iter()).position(|(a, b)| a != b), name);
             }
+            // the ways of reading mixed: a caller that has read the first k bytes itself gets exactly the rest from each helper
+            for k in [0usize, 1, 5, 4096, n / 2, n.saturating_sub(1), n] {
+                if k > n { continue; }
+                for helper in ["bytes", "write_to", "read_to_end", "text_utf8", "split-bytes"] {
+                    let mut r = open();
+                    let mut first = vec![0u8; k]; r.read_exact(&mut first).unwrap_or_else(|e| panic!("reading the first {} of {} bytes, {} body: {}", k, n, name, e));
+                    let rest: Vec<u8> = match helper {
+                        "bytes" => r.bytes().unwrap(),
+                        "write_to" => { let mut v = Vec::new(); r.write_to(&mut v).unwrap(); v }
+                        "read_to_end" => { let mut v = Vec::new(); r.read_to_end(&mut v).unwrap(); v }
+                        "split-bytes" => r.split().2.bytes().unwrap(),
+                        _ => { if payload[k..].is_ascii() { r.text_utf8().unwrap().into_bytes() } else { continue; } }
+                    };
+                    cases += 1; crate::verif_native_watchdog::progress();
+                    assert!(first[..] == payload[..k] && rest[..] == payload[k..], "{} after {} bytes read by the caller: {} bytes instead of the remaining {} ({} body of {} bytes)", helper, k, rest.len(), n - k, name, n);
+                }
+            }
         }
     }
     println!("VP-NATIVE response_body_end_to_end cases={}", cases);
